@@ -1,7 +1,9 @@
 CONSTANTS
   Classes = {"E", "W", "H", "C", "F1", "F1b", "F1a", "F1ba", "F0", "F0s", "X"}
   MaxLines = 5
-  Emit = "case"
+  NarrowClasses = {}
+  NarrowMaxLines = 0
+  Emit = "none"
   MergeUnterminatedWs = FALSE
   DropFloatingComment = FALSE
 SPECIFICATION Spec
